@@ -10,6 +10,12 @@ def baseline_labels(unit, pid):
     d = json.load(open(path))
     return [l for l, ps in d.get(unit, {}).items() if pid in ps]
 
+_CONTAINER_ASSUME = [
+    "error-type contract (the clause 'as long as the error type itself keeps what it is handed'): DeserializeError::error appends exactly one Report event, MergeWithError::merge appends the handed error's events plus one Handover event, to the ghost trace; the Continue/Break answer is unconstrained",
+    "value-source contract: Sequence::len/into_iter and Map::len/into_iter agree with the ghost views elems()/entries(); into_value is a function (spec_into_value)",
+    "element/field types are only known through the Deserr trait contract (modular: a caller is checked against the callee's contract); integer/float/char scalars are shown to satisfy the executable form of that contract by the Kani scalar harnesses (C05)",
+]
+
 PROPS = {
     "C19": {
         "title": "Value pointers faithfully record the path that was pushed",
@@ -22,6 +28,62 @@ PROPS = {
         "assumptions": [],
     },
 }
+
+_IMPLS_UNIT = {"kind": "verus", "unit": "impls"}
+_IMPLS_FUNCS = "(), bool, String, Vec<T>, Option<T>, Box<T>, HashSet<T>, BTreeSet<T>, [T; N], (A,B), (A,B,C), HashMap<K,T>, BTreeMap<K,T>, take_cf_content"
+
+PROPS.update({
+    "C01": {
+        "title": "No reported error is ever lost: Ok only when nothing was reported",
+        "level": "proof",
+        "technique": "Verus: trait-level contracts on Deserr / DeserializeError / MergeWithError over a ghost trace of error()/merge() calls; every std container impl extracted from src/impls.rs and proved, unbounded, for every answer sequence",
+        "design_ref": "DESIGN.md §3.3, §4 C01",
+        "units": [_IMPLS_UNIT],
+        "text": "For each std impl (" + _IMPLS_FUNCS + ") Verus proves, for all payloads, lengths and all Continue/Break answers: Ok ==> the payload has no fault (accepts), Err(e) ==> the ghost trace of e is non-empty, and the accumulator is None exactly while every child so far was accepted (loop invariant) -- so an accumulated error can neither be dropped nor a call succeed after a report. Derived types and serde_json::Value are decided by the Kani units when present in this check.",
+        "level_note": "Relative to the error-type contract (trace view) and the value-source contract; derived structs/enums are outside Verus' reach and covered by bounded Kani harnesses only.",
+        "assumptions": _CONTAINER_ASSUME,
+    },
+    "C02": {
+        "title": "Keep-going error types receive every independent fault exactly once",
+        "level": "proof",
+        "technique": "Verus: postcondition `no stop answer ==> trace(e) == spec_trace(value, path)` where spec_trace is the keep-going reference semantics written from the statement; loop invariants carry it (acc_ok)",
+        "design_ref": "DESIGN.md §3.3, §4 C02",
+        "units": [_IMPLS_UNIT],
+        "text": "spec_trace (per impl) is the in-order concatenation of the children's keep-going traces, each followed by one hand-over, or the single structural report (wrong kind, wrong arity, unparsable key). Verus proves for every std impl: if no call was answered Break then the trace of the returned error has exactly the length and the events of spec_trace (agree_until_stop + complete), for all payloads and lengths.",
+        "level_note": "Relative to the trait contracts; masking rules (wrong container kind / arity hide children) are how spec_trace is defined, one clause each, from the property text.",
+        "assumptions": _CONTAINER_ASSUME,
+    },
+    "C03": {
+        "title": "A stop answer ends the work; fail-fast result = first keep-going report",
+        "level": "proof",
+        "technique": "Verus: postconditions agree_until_stop (every event up to and including the first stopped one equals the keep-going run) and stop_then_handover (after a stop only the hand-over to the parent can follow); accumulator invariant 'never ends on a stop'",
+        "design_ref": "DESIGN.md §3.3, §4 C03",
+        "units": [_IMPLS_UNIT],
+        "text": "For every std impl and every answer sequence Verus proves: (S1) an event answered Break is the last event of the container it was produced in -- the only call that can follow is the parent's hand-over; (U) all events up to and including the first Break are the events of the keep-going run at the same positions. Hence an always-Break error type returns exactly spec_trace[0] followed by hand-overs.",
+        "level_note": "Relative to the trait contracts. That JsonError/QueryParamError always answer Break is decided separately (C14 unit) when present.",
+        "assumptions": _CONTAINER_ASSUME,
+    },
+    "C04": {
+        "title": "Every report points at the real culprit: location and payload match input",
+        "level": "proof",
+        "technique": "Verus: `requires under(merge_location, trace(other))` on MergeWithError::merge (checked at every call site), `under(location, trace(e))` postcondition, and event equality with spec_trace (path, actual value id, kind, accepted list, arity)",
+        "design_ref": "DESIGN.md §3.3, §4 C04",
+        "units": [_IMPLS_UNIT],
+        "text": "Every merge call site must prove that the hand-over location is an ancestor-or-self of every event handed over; every returned trace lies under the location given; and (through agree_until_stop) each event carries the path, the identity and kind of the actual value, the accepted kinds / expected length that spec_trace computes from the payload at that position. Proved for every std impl at every index / key.",
+        "level_note": "Relative to the trait contracts; value identity is an uninterpreted token (equal values have equal tokens). Derived types: Kani units.",
+        "assumptions": _CONTAINER_ASSUME,
+    },
+    "C06": {
+        "title": "Containers keep structure: order, arity, None-iff-null, set and map semantics",
+        "level": "proof",
+        "technique": "Verus: `Ok(v) ==> v.represents(value)` with per-impl ghost relation (Vec/array/tuple: element i from payload element i; Option: None iff null; Box transparent); arity errors are part of spec_trace",
+        "design_ref": "DESIGN.md §4 C06",
+        "units": [_IMPLS_UNIT],
+        "text": "Verus proves for Vec, [T;N], (A,B), (A,B,C), Option, Box: the result represents the payload element-wise in order with nothing dropped/duplicated (loop invariant seq_repr), arrays/tuples accept exactly their arity and otherwise report BadSequenceLen with the whole sequence and N, Option is None exactly for Null. Set/map *contents* and CS lists have no vstd model and are decided by bounded Kani harnesses when present.",
+        "level_note": "Relative to the trait contracts and the std axiom 'Vec<T> -> [T;N] try_into succeeds iff len == N, keeping order'.",
+        "assumptions": _CONTAINER_ASSUME,
+    },
+})
 
 NOT_APPLICABLE = {
     "C20": "HTTP extractors are three-line async compositions of actix-web/axum extractors with deserr::deserialize; neither installed verifier can run or specify the frameworks (futures, pinning, runtime), so every obligation would be an assumed contract on actix/axum with nothing left to prove; the features are off by default and not compiled in the baseline.",
